@@ -169,7 +169,7 @@ def main():
     ck.do_build()
     rnd = random.Random(ck.seed + 5)
     quick = ck.tier == "quick"
-    cases = genrun.corpus_cases()
+    cases = genrun.corpus_cases() + genrun.big_token_cases()
     cases += genrun.gen_cases(rnd, 250 if quick else 4000)
     recs = genrun.run_batch(ck, cases, seeds_per_case=2 if quick else 4, what=("struct", "mass"), seed_base=ck.seed * 104729 + 5,
                             oracles=[oracle_c05], forced=genrun.cap_targets, runner=runner_with_embedding_schedule)
